@@ -3,7 +3,11 @@ PROPERTY = "C02"
 LEVEL = "proof"
 FUNCTIONS = [{'q': 'uxarray.grid.connectivity.close_face_nodes',
     'standin': {}}, 'uxarray.grid.connectivity._build_n_nodes_per_face',
-    'uxarray.grid.connectivity._build_face_edge_connectivity']
+    'uxarray.grid.connectivity._build_face_edge_connectivity',
+    'uxarray.io._mpas._parse_face_edges@primal',
+    'uxarray.io._mpas._parse_face_edges@dual',
+    'uxarray.io._mpas._parse_edge_nodes@primal',
+    'uxarray.io._mpas._parse_edge_nodes@dual']
 STANDINS = ["edges"]
 ASSUMPTIONS = []
 EXPLANATION = "builders under contract + bounded stand-in (catalogue meshes, exhaustive small tables, access orders)"
